@@ -1,21 +1,21 @@
-\* non-vacuity: a cancelled exchange hands its connection back to the idle pool -> OwnReply must fail
+\* non-vacuity: a noticed close leaves the connection in the idle pool -> NoticedNotOffered must fail
 SPECIFICATION Spec
 CONSTANTS
   N = 3
   MaxConn = 3
-  MaxResend = 1
+  MaxResend = 0
   MaxTries = 2
   MaxDup = 2
   TcChoices = {TRUE}
-  Overlap = FALSE
+  Overlap = TRUE
   Burst = 0
-  EnvCancel = TRUE
-  EnvClose = FALSE
+  EnvCancel = FALSE
+  EnvClose = TRUE
   EnvDup = FALSE
   Matching = FALSE
   ReuseBusy = FALSE
-  IdleOnCancel = TRUE
-  ForgetKeepsIdle = FALSE
+  IdleOnCancel = FALSE
+  ForgetKeepsIdle = TRUE
   DupAccepted = FALSE
   WithHist = FALSE
   Export = FALSE
